@@ -378,6 +378,8 @@ class MeasuredValue(ExperimentalValue):
     def __init__(self, data, error=None, **kwargs):
         if error is not None and not isinstance(error, Real):
             raise IllegalArgumentError("Invalid data type to record an uncertainty!")
+        if error is not None and error < 0:
+            raise ValueError("The error must be a positive real number!")
         unit = kwargs.get("unit", "")
         name = kwargs.get("name", "")
         save = kwargs.get("save", True)
